@@ -216,7 +216,7 @@ def as_all_keyword(fn, a, kw):
 _CARRIER = [0]
 
 
-def numpy_carriers(a, kw):
+def numpy_carriers(a, kw, zero_d=False):
     """numeric OPTIONS held the numpy way: Python ints as numpy integers or 0-d arrays, floats as numpy floats or 0-d arrays,
     bools as numpy bools (matrices and solver objects are left alone) -> (args, kwargs)"""
     def conv(v):
@@ -224,9 +224,9 @@ def numpy_carriers(a, kw):
         if isinstance(v, bool):
             return np.bool_(v)
         if isinstance(v, int):
-            return (np.int64(v), np.array(v), np.int32(v))[_CARRIER[0] % 3]
+            return np.array(v) if zero_d else (np.int64(v), np.int32(v))[_CARRIER[0] % 2]
         if isinstance(v, float) and math.isfinite(v):
-            return (np.float64(v), np.array(v))[_CARRIER[0] % 2]
+            return np.array(v) if zero_d else np.float64(v)
         return v
     return tuple(conv(v) for v in a), {k: conv(v) for k, v in kw.items()}
 
